@@ -239,3 +239,8 @@ Definition fresh_case (t : ty) (le1 be1 le2 be2 : bytes) : list Z :=
   if beq le1 wl && beq be1 wb && beq le2 wl && beq be2 wb then []
   else [96; b2z (beq le1 wl); b2z (beq be1 wb); b2z (beq le2 wl); b2z (beq be2 wb)].
 
+(* C02: the recursive predicate the greedy-tail round-trip theorem is stated with agrees with the spec's
+   [greedy_tail_aligned] on this case (definition agreement, evaluated, not proved) *)
+From Prophy Require Import PyRoundtrip PyRoundtripGreedy.
+Definition tail_defs_case (t : ty) (v : value) : list Z :=
+  if Bool.eqb (tail_clean t v) (greedy_tail_aligned t v) then [] else [99; b2z (tail_clean t v); b2z (greedy_tail_aligned t v)].
